@@ -7,6 +7,9 @@ import vlib
 
 def signature(msg, case_lines):
     m = re.search(r"what=(\S+)", msg)
+    if m and m.group(1).startswith("export-"):
+        r = re.search(r"reason=(\S+)", msg)
+        return "what:%s%s" % (m.group(1), ":" + r.group(1)[:60] if r else "")
     d = re.search(r"deco=\[([^\]]*)\]", msg)
     flags = " ".join(f for f in (d.group(1).split() if d else []) if f.endswith("=1") and not f.startswith("dseed"))
     return "what:%s %s" % (m.group(1) if m else "?", flags)
